@@ -1357,8 +1357,16 @@ class STensor:
     def __imul__(self, o): return self.mul_(o)
     def __itruediv__(self, o): return self.div_(o)
     def __matmul__(self, o): return matmul(self, o)
-    def __eq__(self, o): return self.eq(o)  # type: ignore
-    def __ne__(self, o): return self.ne(o)  # type: ignore
+    def __eq__(self, o):  # type: ignore
+        # torch wraps the TypeError of an unsupported operand type into NotImplemented (so `...` == tensor is False, list.index(...) works)
+        if o is Ellipsis or o is None or isinstance(o, (str, slice, type)):
+            return NotImplemented
+        return self.eq(o)
+
+    def __ne__(self, o):  # type: ignore
+        if o is Ellipsis or o is None or isinstance(o, (str, slice, type)):
+            return NotImplemented
+        return self.ne(o)
     def __lt__(self, o): return self.lt(o)
     def __le__(self, o): return self.le(o)
     def __gt__(self, o): return self.gt(o)
